@@ -362,7 +362,11 @@ class Engine:
         items = {}
         for k, v in zip(node.keys, node.values):
             if k is None:
-                raise GenerationError("dict ** merge")
+                inner = self.eval(v, st, spec)
+                if not isinstance(inner, DictV):
+                    raise GenerationError("dict ** merge of a non-literal dict")
+                items.update(inner.items)
+                continue
             kv = self.eval(k, st, spec)
             ks = pyops._const_str(kv)
             if ks is None:
